@@ -25,6 +25,7 @@ func init() {
 			rulePrecedenceTable(r)
 			ruleScanUnit(r)
 			ruleParserUniqueness(r)
+			ruleRangeLayouts(r)
 		},
 	})
 }
